@@ -130,6 +130,31 @@ Section Gen.
     destruct (dec_fields fs m); reflexivity.
   Qed.
 
+  Lemma map_res_ext {A B} (f g : A -> res B) l : (forall x, f x = g x) -> map_res f l = map_res g l.
+  Proof. intros H. induction l as [|a t IH]; simpl; [reflexivity|]. rewrite H, IH. reflexivity. Qed.
+
+  Lemma encode_slicestruct_eq fs l :
+    encode_val cenc (KSliceStruct fs) (VStructs (Some l)) =
+    (r <- map_res (fun vs => m <- enc_fields fs vs ;; Ok (JObj m)) l ;; Ok (JArr r)).
+  Proof. reflexivity. Qed.
+
+  Definition dec_elem (fs : list fdesc) (e : json) : res (list gval) :=
+    match e with JObj m => dec_fields fs m | JNull => Ok (zeros fs) | _ => Err "type" end.
+
+  Lemma decode_slicestruct_arr fs l :
+    decode_val O cdec (KSliceStruct fs) (JArr l) = (r <- map_res (dec_elem fs) l ;; Ok (VStructs (Some r))).
+  Proof.
+    simpl.
+    match goal with |- bind (map_res ?F l) _ = _ => assert (HF : forall e, F e = dec_elem fs e) end.
+    { intros e. destruct e; try reflexivity. simpl.
+      match goal with |- ?G fs m = _ => assert (HG : forall fs, G fs m = dec_fields fs m) end.
+      { clear fs. induction fs as [|[g key omit k] t IH]; [reflexivity|].
+        simpl. rewrite IH. unfold dec_member.
+        destruct (jfind_all key m) as [|j [|j' js]]; reflexivity. }
+      apply HG. }
+    rewrite (map_res_ext _ _ l HF). reflexivity.
+  Qed.
+
   (* ---- values that differ only in fields whose key is in D ---- *)
   Inductive agree_out (D : list string) : list fdesc -> list gval -> list gval -> Prop :=
   | ao_nil : agree_out D [] [] []
